@@ -1,4 +1,5 @@
 import Verif.Generated.FactsOK.Common
+import Verif.Generated.FactsOK.SrcClassify
 import Verif.Properties.C20
 
 namespace Generated
